@@ -48,7 +48,7 @@ def main():
                 results.append((m["id"], "BAD-MUTANT old text occurs %d times" % s.count(m["old"])))
                 print(results[-1]); continue
             open(p, "w").write(s.replace(m["old"], m["new"]))
-            env = dict(os.environ, VERIF_REPO=d)
+            env = dict(os.environ, VERIF_REPO=d, VERIF_STOP_AT_FIRST="1")
             env.pop("DSIM_REEXEC", None)
             cmd = [os.path.join(HERE, "check"), m["property"], "--tier", a.tier, "--no-evidence"]
             if a.runs:
